@@ -124,7 +124,12 @@ func (x *exec) guard(dk *kind, b []byte) (decodeResult, []byte, bool) {
 	levels := [...][2]uint64{{1 << 16, 256}, {1 << 16, 0}, {1 << 20, 0}, {1 << 26, 0}}
 	var prev []byte
 	for i, lv := range levels {
-		x1, subst := clampTrace(dk.dec, b, lv[0], lv[1])
+		x1, subst, complete := clampTrace(dk.dec, b, lv[0], lv[1])
+		if !complete {
+			x.nSkip++
+			x.c.Probe("face-value-decode-skipped-preflight-incomplete")
+			return decodeResult{err: errSkipped}, b, false
+		}
 		if !subst {
 			break // nothing above this level's caps: the face value is as harmless
 		}
@@ -168,10 +173,23 @@ func (x *exec) guard(dk *kind, b []byte) (decodeResult, []byte, bool) {
 			return r1, x1, false
 		}
 	}
-	r := runDecode(dk.decode, b, true)
+	// face value; the reader gives up on a decoder that keeps asking for data
+	// long after the input ended (an error-ignoring loop over a wire count)
+	dec := dk.decode
+	if dk.decBuf == nil {
+		dec = func(b []byte) (interface{}, error) { return dk.dec(&eofGuardReader{r: bytes.NewReader(b)}) }
+	}
+	r := runDecode(dec, b, true)
+	if r.panicked && r.panicText == eofLoopText {
+		x.nSkip++
+		x.c.Probe("face-value-decode-aborted-loop-past-end-of-input")
+		return decodeResult{err: errSkipped}, b, false
+	}
 	x.judge(dk, b, r)
 	return r, b, true
 }
+
+var errSkipped = errorString("wiresim: decode not completed")
 
 // judge applies the C02 oracles to one decode. It reports whether the decode
 // violated the property.
